@@ -276,7 +276,13 @@ func (f *frame) afterCallLets(sk string, ord int, args, res []Val, st *State) {
 		}
 		v := env.eval(l.Expr)
 		if old, ok := f.c.ghosts[l.Name]; ok && len(old.L) == len(v.L) {
+			// path-exact: the new value where this call site was passed, the previous one elsewhere
 			v.T = old.T
+			w := Val{T: v.T, L: make([]*Term, len(v.L)), Root: v.Root, Base: v.Base}
+			for i := range v.L {
+				w.L[i] = Ite(st.reach, v.L[i], old.L[i])
+			}
+			v = w
 		}
 		f.c.ghosts[l.Name] = v
 		f.c.ghostBlk[l.Name] = f.curBlock
